@@ -80,7 +80,7 @@ What the misses of each round exposed, and what was strengthened:
   after the roDelete in a collection, S3 keys whose byte order is not the message-id order, stories timed by
   exactly one of TextTime / MediaTime in merges, `MosCollection.completed` before / after / after an aborted merge.
 
-* Round 4 (17 of 20 caught at first; 10 by failed obligations, 10 as tool limits).  The three misses were tool
+* Round 4 (17 of 20 caught at first; 11 by failed obligations, 9 as tool limits).  The three misses were tool
   limits (slice assignment, a new helper loop, `ElementTree(...).write`) without a scenario in the stand-in: a
   roStorySend with an empty / whitespace-only `storyBody` (`R4A_3`); a running order that itself holds a story or
   item with a blank ID, against blank / unknown / existing references of every message kind (`R4B_3`: a blank
